@@ -182,3 +182,34 @@ Definition py_range3 (a b step : Z) : res (list Z) :=
   if step =? 0 then Err ValueError
   else if 0 <? step then Ok (py_range_aux (Z.to_nat ((b - a + step - 1) / step)) a step)
   else Ok (py_range_aux (Z.to_nat ((a - b - step - 1) / (- step))) a step).
+
+(* ------------------------------------------------------------------ iterators, Buffer.toints, namedtuple EC *)
+(* itertools.islice(it, n) on an iterator: the items taken and the iterator that remains *)
+Definition py_islice {A} (it : list A) (n : Z) : res (list A * list A) :=
+  if n <? 0 then Err ValueError else Ok (firstn (Z.to_nat n) it, skipn (Z.to_nat n) it).
+
+(* Buffer.toints(): the buffer read in groups of 8 items (the last group filled with 0), every group taken as
+   the binary digits of an int.  Exact for buffers whose items are the bits 0/1 (all that Buffer.append_bits and
+   the writers of encoder.py store); for other items Python would read the decimal digits of each item as binary
+   digits -- such buffers are rejected here.  gen/translate.py accepts Buffer.toints only while its source is
+   literally the expected one-liner (zip_longest over 8 copies of one iterator, int(.., 2) of the joined strs). *)
+Definition is_bit (x : Z) : bool := (x =? 0) || (x =? 1).
+Fixpoint py_take_fill (n : nat) (l : list Z) : list Z :=
+  match n with O => [] | S k => match l with [] => 0 :: py_take_fill k [] | x :: r => x :: py_take_fill k r end end.
+Fixpoint py_toints_fuel (fuel : nat) (l : list Z) : list Z :=
+  match fuel with O => [] | S f =>
+    match l with
+    | [] => []
+    | _ => fold_left (fun acc b => 2 * acc + b) (py_take_fill 8 l) 0 :: py_toints_fuel f (skipn 8 l)
+    end end.
+Definition py_buffer_toints (data : list Z) : res (list Z) :=
+  if forallb is_bit data then Ok (py_toints_fuel (S (length data)) data) else Err TypeErr.
+
+(* consts.EC = namedtuple('EC', 'num_blocks num_total num_data'), dumped as triples *)
+Definition ec_num_blocks (e : Z * Z * Z) : Z := fst (fst e).
+Definition ec_num_total (e : Z * Z * Z) : Z := snd (fst e).
+Definition ec_num_data (e : Z * Z * Z) : Z := snd e.
+
+(* list item assignment (no byte range) *)
+Definition py_list_set_item {A} (l : list A) (i : Z) (v : A) : res (list A) :=
+  do k <- py_norm_index (lenZ l) i; Ok (upd_nat l (Z.to_nat k) v).
